@@ -12,7 +12,7 @@
 (*   transformation unjudged.                                                                       *)
 (* Names are strings (sequences of code points); this version has no namespaces in result names    *)
 (* (C14 covers them).  It rests on XPathSem (expressions, patterns), TemplateRules (5.5), Sort.    *)
-EXTENDS TemplateRules, Sort
+EXTENDS TemplateRules, Sort, Numbering, Strip
 
 TextItem(s) == IF s = <<>> THEN <<>> ELSE <<[k |-> "text", v |-> s]>>
 OnlyText(items) == \A j \in 1..Len(items) : items[j].k = "text"
@@ -118,7 +118,7 @@ ApplyTo(nodes, k, mp, c) ==      \* mp = [mode, passed]
            here == IF rid # Builtin THEN RunTemplate(TemplateByRid(c.ss, rid), n, k, Len(nodes), mp.passed, c)
                    ELSE IF kind \in {"root", "elem"}                      \* built-in rules (5.8)
                         THEN ApplyTo(DocOrderSeq(Axis(c.f, "child", n)), 1,
-                                     [mode |-> mp.mode, passed |-> IF c.builtinPass THEN mp.passed ELSE <<>>], c)
+                                     [mode |-> mp.mode, passed |-> IF c.dev.builtinPass THEN mp.passed ELSE <<>>], c)
                    ELSE IF kind \in {"text", "attr"} THEN TextItem(StringValue(c.f, n))
                    ELSE <<>>
        IN here \o ApplyTo(nodes, k + 1, mp, c)
@@ -206,6 +206,11 @@ Inst(x, c) ==
          ELSE IF v.t = "ns" THEN LET s == DocOrderSeq(v.v) IN FlattenSeq([j \in 1..Len(s) |-> DeepCopy(c.f, s[j])])
          ELSE IF v.t = "rtf" THEN v.v
          ELSE TextItem(ToStr(c.f, v))
+    [] x.i = "number" ->          \* xsl:number counting the current node (7.7); value= is not used by the generators
+         IF Ambiguous(x.instr, c.n, c) THEN BadItem("unm")        \* `from` matches nothing: not defined by XSLT 1.0
+         ELSE LET lst == NumberList(x.instr, c.n, c) IN
+              IF c.dev.zeroAnyEmpty /\ x.instr.level = "any" /\ lst = <<0>> THEN <<>>     \* named deviation, see Strict
+              ELSE TextItem(FormatList(lst, x.fmt))
     [] x.i = "message" -> <<>>
     [] OTHER -> BadItem("err")
 
@@ -214,22 +219,26 @@ RECURSIVE Globals(_, _, _)
 Globals(gs, j, c) == IF j > Len(gs) THEN c.vars
                      ELSE Globals(gs, j + 1, [c EXCEPT !.vars = Bind(c.vars, gs[j].name, BindingValue(gs[j], c))])
 
-(* builtinPass = FALSE is XSLT 1.0 (5.8: the built-in rule is <xsl:apply-templates/>, which passes no      *)
-(* parameters).  TRUE describes a processor that hands the parameters it received on to the children      *)
-(* (XSLT 2.0 behaviour); it exists only so that a trace spec can NAME that deviation when it sees it.      *)
-TransformWith(ss, F, builtinPass) ==
-  LET root == <<1, 1, 0>>
+(* dev names deviations from XSLT 1.0 that a trace spec may want to RECOGNISE (never accept):              *)
+(*   builtinPass  - built-in rules hand the parameters they received on to the children (5.8 says: no)      *)
+(*   zeroAnyEmpty - xsl:number level="any" produces nothing instead of "0" when no node is counted (7.7)    *)
+(* Strict is XSLT 1.0.                                                                                        *)
+Strict == [builtinPass |-> FALSE, zeroAnyEmpty |-> FALSE]
+TransformWith(ss, F0, dev) ==
+  LET \* 3.4: the whitespace-only text nodes selected by the strip-space declarations are not in the source tree
+      F == <<RemoveNodes(F0[1], StrippedIds(F0[1], ss.strip))>> \o SubSeq(F0, 2, Len(F0))
+      root == <<1, 1, 0>>
       tree == [id |-> 1, imports |-> <<>>,
                rules |-> SelectSeq([j \in 1..Len(ss.templates) |->
                                       [rid |-> ss.templates[j].rid, pat |-> ss.templates[j].match, mode |-> ss.templates[j].mode,
                                        hasPrio |-> ss.templates[j].hasPrio, prio |-> ss.templates[j].prio, hasMatch |-> ss.templates[j].hasMatch]],
                                    LAMBDA r : r.hasMatch)]
-      c0 == [f |-> F, n |-> root, pos |-> 1, size |-> 1, vars |-> <<>>, cur |-> root, keys |-> <<>>,
-             ss |-> ss, entries |-> Entries(tree), gv |-> <<>>, builtinPass |-> builtinPass]
+      c0 == [f |-> F, n |-> root, pos |-> 1, size |-> 1, vars |-> <<>>, cur |-> root, keys |-> ss.keys,
+             ss |-> ss, entries |-> Entries(tree), gv |-> <<>>, dev |-> dev]
       gv == Globals(ss.gvars, 1, c0)
       c1 == [c0 EXCEPT !.gv = gv, !.vars = gv]
       items == Normalize(ApplyTo(<<root>>, 1, [mode |-> "", passed |-> <<>>], c1))
   IN IF HasBad(items) THEN [bad |-> BadWhy(items), items |-> <<>>] ELSE [bad |-> "", items |-> items]
 
-Transform(ss, F) == TransformWith(ss, F, FALSE)
+Transform(ss, F) == TransformWith(ss, F, Strict)
 =============================================================================
